@@ -130,6 +130,7 @@ func propC05(w *World, r *Report) {
 	checkPerFD(w, r)
 	checkDecodeSem(w, r)
 	checkStackSem(w, r)
+	checkStackCtl(w, r)
 	checkMoveState(w, r, fn)
 
 	// ---- safety of the interpreter (shared with C02)
